@@ -245,6 +245,11 @@ def run(rep: Report, tier: str) -> None:
         after = gcall.lineno > loop.end_lineno and not any(a is loop for a in ancestors(gcall))
         rep.check(after, rf, main_mod, internal.qualname, "report generators run after the per-asset loop", "the report generators are invoked inside or before the per-asset loop: a report could be written before a later asset's overdraft is detected", loc(gcall))
 
+    rh = rep.rule("C08.h", "the overdraft test's comparisons: RP2Decimal operators quantise to 13 decimals; is_equal_within_precision quantises to the given mask", floor=8)
+    from .. import engine
+
+    engine.check_decimal_comparisons(rep, rh)
+
     # ---------------------------------------------------------------- C08.g
     # 'with -n the run proceeds and reports the negative balance': the Account Balances table of the full report writes one row per
     # balance of the set, whatever its sign (no row is skipped), the Final Balance column shows the balance's own final_balance
